@@ -1,5 +1,6 @@
 import MaltModel.Props.C01Func
 import MaltModel.Proofs.FuncFSim
+import MaltModel.Proofs.FuncWrapperF
 import MaltModel.Proofs.FuncBlockVars
 /-!
 # C02 — functional (tracing) operator backends see complete state
@@ -152,6 +153,21 @@ theorem C02_undefined_exact (p : ABlock) (hu : UsesBlockVars p) :
   exact ⟨fun h => ⟨hf.2.1 h, hf.2.2.2.2.2.2.2 v h⟩, fun h => hf.2.2.2.2.2.2.1 v h.1 h.2⟩
 
 /-! ## Examples -/
+/-- **The function wrapper around a tracing-backend body** (partial correctness, like `functional_correct`): the
+converted function (`callConvertedF`: `FunctionScope` enter, the `do_return`/`retval_` initialisation, the
+functionalised body under the tracing operators, `return fscope.ret(retval_, do_return)`, `__exit__` on every
+outcome) restores the conversion-status stack in every case and, whenever it does not raise, returns what the caller
+of the lowered source body sees (`None` when the source falls off the end or `retval_` still holds the
+`UndefinedReturnValue` placeholder), with the same effect log. -/
+theorem C02_function_wrapper_partial (X : Ext) (l : Lowered) (hwf : l.wf = true) (name : String) (userRequested : Bool)
+    (D : List Name) (hyp : FuncHyp D l.prog []) (hF : FuncHypF l.inner)
+    (σ : St) (σ' : TSt) (hag : Agree (blockIn l.prog []) σ σ') (hb : BoundSub σ D) (stk : CtxStack)
+    (n : Nat) (o : Out) (σ₁ : St) (hsrc : execB X n (eraseB l.prog) σ = some (o, σ₁))
+    (m : Nat) (r : Out) (τ : TSt) (stk' : CtxStack)
+    (hrun : callConvertedF X m l name userRequested σ' stk = some (r, τ, stk')) :
+    stk' = stk ∧ (IsExc r ∨ (r = fnOutcome o ∧ τ.log = σ₁.log)) :=
+  wrapper_both_F X l hwf name userRequested D hyp hF.hypf hF.pure σ σ' hag hb stk n o σ₁ hsrc m r τ stk' hrun
+
 namespace ExamplesF
 open Examples
 
@@ -190,6 +206,14 @@ example : UsesBlockVars condProg := by
   rcases hs with rfl | rfl | rfl | rfl | rfl
   · intro _; refine ⟨by decide, by decide, by decide⟩
   all_goals (intro h; cases h)
+
+/-- The wrapped functions of C01Func under the tracing backend: pure, `HypFB`; conditional return 7 / the
+`UndefinedReturnValue` placeholder becoming `None`; the status stack restored (`fallOff` logs a call: not pure). -/
+example : funcHypF condRet.inner = true := by decide
+example : (callConvertedF X0 10 condRet "f" true (TSt.ofSt (st [("c", .int 1)])) [.disabled]).map (fun r => (r.1, r.2.2)) =
+    some (.ret (.int 7), [.disabled]) := by decide
+example : (callConvertedF X0 10 condRet "f" true (TSt.ofSt (st [("c", .int 0)])) []).map (fun r => (r.1, r.2.2)) =
+    some (.ret .none, []) := by decide
 
 end ExamplesF
 
